@@ -84,7 +84,7 @@ class Run:
     def simplify_cond(self, c: Expr, use_smt=True) -> Optional[bool]:
         import time as _time
 
-        self.ring.deadline = _time.time() + 3.0
+        self.ring.deadline = _time.process_time() + 5.0
         """use_smt: True = ring + linear hypotheses only (cheap); "full" = also the full (nonlinear) context."""
         if c.op == "bconst":
             return c.args[0]
